@@ -35,11 +35,79 @@ Lemma clear_slot_routes : forall casc st t nested i0 s,
 Proof.
   intros casc st t nested i0 s G S HC. unfold clear_slot.
   destruct (lookup st i0 s) as [sl|]; [|reflexivity].
-  destruct (s_parent sl) as [p|]; [|reflexivity].
+  destruct (s_parent sl) as [p|]; [|destruct (guarded st i0 s); reflexivity].
+  match goal with |- context [if ?B then _ else _] => destruct B end; [reflexivity|].
   destruct (frame_dflt _ _ (frame_eq_vacate st i0 s sl)) as (G' & S').
-  rewrite (eff_single _ t nested i0) by congruence.
-  specialize (HC (vacate st i0 s sl) p ltac:(congruence) ltac:(congruence)).
-  destruct (casc (vacate st i0 s sl) i0 p) as [st'' o]. simpl in *. rewrite Nat.eqb_refl. exact HC.
+  set (std := drop_note (vacate st i0 s sl) i0 s).
+  assert (Gd : st_global std = Some i0) by (unfold std; simpl; congruence).
+  assert (Sd : st_scoped std = 0) by (unfold std; simpl; congruence).
+  rewrite (eff_single std t nested i0) by auto.
+  specialize (HC std p Gd Sd).
+  destruct (casc std i0 p) as [st'' o]. simpl in *. rewrite Nat.eqb_refl. exact HC.
+Qed.
+
+(** handles (the phantom references parked by closes under a slab guard included) stay within the one collector *)
+Definition hs_inst (i0 : inst) (st : state) : Prop := forall h i s, In (h, HSpan i s) (st_handles st) -> i = i0.
+
+Lemma vacate_handles : forall st i s sl, st_handles (vacate st i s sl) = st_handles st.
+Proof.
+  intros. unfold vacate. destruct (s_parent sl); [|reflexivity].
+  match goal with |- context [match ?x with Some _ => _ | None => _ end] => destruct x end; reflexivity.
+Qed.
+
+Lemma clear_slot_hs : forall casc st t nested i0 s,
+  st_global st = Some i0 -> st_scoped st = 0 -> hs_inst i0 st ->
+  (forall st0 p, st_global st0 = Some i0 -> st_scoped st0 = 0 -> hs_inst i0 st0 -> hs_inst i0 (fst (casc st0 i0 p))) ->
+  hs_inst i0 (fst (clear_slot casc st t nested i0 s)).
+Proof.
+  intros casc st t nested i0 s G S H HC. unfold clear_slot.
+  destruct (lookup st i0 s) as [sl|]; [|exact H].
+  assert (HV : hs_inst i0 (vacate st i0 s sl)) by (unfold hs_inst; rewrite vacate_handles; exact H).
+  destruct (s_parent sl) as [p|]; [|destruct (guarded st i0 s); exact HV].
+  match goal with |- context [if ?B then _ else _] => destruct B end.
+  - simpl. intros h i s0 [X|X]; [inversion X; auto | eapply HV; eauto].
+  - destruct (frame_dflt _ _ (frame_eq_vacate st i0 s sl)) as (G' & S').
+    set (std := drop_note (vacate st i0 s sl) i0 s).
+    assert (Gd : st_global std = Some i0) by (unfold std; simpl; congruence).
+    assert (Sd : st_scoped std = 0) by (unfold std; simpl; congruence).
+    rewrite (eff_single std t nested i0) by auto.
+    specialize (HC std p Gd Sd HV).
+    destruct (casc std i0 p) as [st'' o]. simpl in *. exact HC.
+Qed.
+
+Lemma frames_hs : forall casc ls st t nested i0 s,
+  st_global st = Some i0 -> st_scoped st = 0 -> hs_inst i0 st ->
+  (forall st0 j p, frame_eq st0 (fst (casc st0 j p))) ->
+  (forall st0 p, st_global st0 = Some i0 -> st_scoped st0 = 0 -> hs_inst i0 st0 -> hs_inst i0 (fst (casc st0 i0 p))) ->
+  hs_inst i0 (fst (frames casc ls st t nested i0 s)).
+Proof.
+  induction ls as [|l r IH]; intros st t nested i0 s G S H HF HC; simpl; [exact H|].
+  set (st2 := put_close st t (cget t (st_close st) - 1)).
+  assert (X : hs_inst i0 (fst (if cget t (st_close st) =? 1 then clear_slot casc st2 t nested i0 s else (st2, []))) /\
+              dflt_eq st (fst (if cget t (st_close st) =? 1 then clear_slot casc st2 t nested i0 s else (st2, [])))).
+  { destruct (cget t (st_close st) =? 1).
+    - split; [apply clear_slot_hs; auto|].
+      eapply dflt_trans; [|apply frame_dflt, frame_eq_clear_slot; auto]. split; reflexivity.
+    - split; [exact H | split; reflexivity]. }
+  destruct (if cget t (st_close st) =? 1 then clear_slot casc st2 t nested i0 s else (st2, [])) as [st3 o3]. simpl in X.
+  destruct X as (H3 & G3 & S3).
+  specialize (IH st3 t nested i0 s ltac:(congruence) ltac:(congruence) H3 HF HC).
+  destruct (frames casc r st3 t nested i0 s) as [st4 o4]. simpl in *. exact IH.
+Qed.
+
+Lemma close_stack_hs : forall fuel st t nested i0 s, st_global st = Some i0 -> st_scoped st = 0 -> hs_inst i0 st ->
+  hs_inst i0 (fst (close_stack fuel st t nested i0 s)).
+Proof.
+  induction fuel as [|f IH]; intros st t nested i0 s G S H; simpl; [exact H|].
+  unfold reg_try_close. change (lookup (add_close st t (st_layers st i0)) i0 s) with (lookup st i0 s).
+  destruct (lookup st i0 s) as [sl|]; simpl; [|exact H].
+  destruct (negb (N.ltb 1 (s_refs sl))); [|exact H].
+  apply frames_hs.
+  - simpl. exact G.
+  - simpl. exact S.
+  - exact H.
+  - intros; apply frame_eq_close_stack.
+  - intros st0 p G0 S0 H0. apply IH; auto.
 Qed.
 
 Lemma frames_routes : forall casc ls st t nested i0 s,
@@ -91,12 +159,13 @@ Proof.
   rewrite (eff_single st1 t false i0) by auto.
   pose proof (frame_eq_close_stack (fuel_of st1) st1 t true i0 s) as F.
   pose proof (close_stack_routes (fuel_of st1) st1 t true i0 s G S) as R.
+  pose proof (close_stack_hs (fuel_of st1) st1 t true i0 s G S Hh) as HS.
   destruct (close_stack (fuel_of st1) st1 t true i0 s) as [st2 o2]. simpl in *.
   rewrite Nat.eqb_refl, R. split; [|reflexivity].
-  destruct F as (_ & F2 & F3 & _ & _ & F6 & _ & F8 & _). split; [|split; [|split]].
+  destruct F as (_ & F2 & F3 & _ & _ & _ & F8 & _). split; [|split; [|split]].
   - rewrite F2. exact G.
   - rewrite F3. exact S.
-  - intros h i s0. rewrite F6. apply Hh.
+  - exact HS.
   - intros i s0 q. rewrite F8. apply Hc.
 Qed.
 
@@ -142,8 +211,15 @@ Lemma step_single : forall i0 st o, single i0 st -> no_setdef o = true ->
   single i0 (fst (step st o)) /\ forallb route_ok (snd (step st o)) = true.
 Proof.
   intros i0 st o H NS. pose proof H as (G & S & Hh & Hc). unfold step. destruct (st_panicked st); [split; auto|].
+  destruct (existsb odd_hid (op_hids o)); [split; auto|].
   destruct o; simpl in NS; try discriminate; simpl.
   - (* new *)
+    assert (D : single i0 (fst (do_new st t h k a)) /\ forallb route_ok (snd (do_new st t h k a)) = true);
+    [|unfold new_with_guards; rewrite (eff_single st t false i0) by auto;
+      destruct (in_limbo st i0 (fst a)); [split; [repeat split; auto | reflexivity]|];
+      destruct (do_new st t h k a) as [st' ob]; simpl in *; destruct D as ((G' & S' & Hh' & Hc') & R'); split;
+      [unfold note_vis; destruct (st_count st <? st_count st'); repeat split; auto
+      |rewrite route_ok_app, R'; destruct (note_at st i0 (fst a)); [destruct (st_count st <? st_count st')|]; reflexivity]].
     rewrite do_new_unfold. destruct (hget h (st_handles st)); [split; auto|].
     rewrite (eff_single st t false i0) by auto.
     assert (R : match resolve st i0 t k with
@@ -170,11 +246,13 @@ Proof.
       set (st1 := set_handles (hdel h (st_handles st)) st).
       pose proof (frame_eq_close_stack (fuel_of st1) st1 t false i0 s) as F.
       pose proof (close_stack_routes (fuel_of st1) st1 t false i0 s G S) as R.
+      assert (H1 : hs_inst i0 st1) by (intros h0 i s0 X; simpl in X; apply hdel_in in X; destruct X; eapply Hh; eauto).
+      pose proof (close_stack_hs (fuel_of st1) st1 t false i0 s G S H1) as HS.
       destruct (close_stack (fuel_of st1) st1 t false i0 s) as [st2 o2]. simpl in *. split; auto.
-      destruct F as (_ & F2 & F3 & _ & _ & F6 & _ & F8 & _). split; [|split; [|split]].
+      destruct F as (_ & F2 & F3 & _ & _ & _ & F8 & _). split; [|split; [|split]].
       * rewrite F2. exact G.
       * rewrite F3. exact S.
-      * intros h0 i s0. rewrite F6. simpl. intros X. apply hdel_in in X. destruct X. eapply Hh; eauto.
+      * exact HS.
       * intros i s0 q. rewrite F8. apply Hc.
   - (* enter *)
     unfold do_enter. destruct (hget h (st_handles st)) as [[|i s]|]; try (split; auto; fail).
@@ -199,6 +277,38 @@ Proof.
     unfold do_event. destruct (eff st t false); split; auto.
   - (* readtrace *)
     unfold do_readtrace. destruct (hget h (st_handles st)) as [[|i s]|]; split; auto.
+  - (* hold *)
+    unfold do_hold. destruct (gget k (st_held st)); [split; auto|].
+    destruct (hget h (st_handles st)) as [[|i s]|]; try (split; auto; fail).
+    destruct (lookup st i s); split; auto; repeat split; auto.
+  - (* poke *)
+    unfold do_poke. destruct (gget k (st_held st)) as [[[i s] q]|]; split; auto; repeat split; auto.
+  - (* peek *)
+    unfold do_peek. destruct (gget k (st_held st)) as [[[i s] q]|]; split; auto.
+  - (* release: the deferred Clear releases the parent through get_default of this thread *)
+    unfold do_release. destruct (gget k (st_held st)) as [[[i s] q]|]; [|split; auto].
+    match goal with |- context [if ?B then _ else _] => destruct B end; [split; [repeat split; auto | reflexivity]|].
+    match goal with |- context [match ?F with Some _ => _ | None => _ end] => destruct F as [l|] end; [|split; [repeat split; auto | reflexivity]].
+    match goal with |- context [hget (phantom q) (st_handles ?S2)] => set (st2 := S2) in * end.
+    assert (H2 : single i0 st2) by (repeat split; auto).
+    destruct (hget (phantom q) (st_handles st2)) as [[|i' p]|] eqn:Hg; try (split; [exact H2 | reflexivity]).
+    assert (i' = i0) by (eapply Hh; apply hget_in in Hg; exact Hg). subst i'.
+    set (st3 := set_handles (hdel (phantom q) (st_handles st2)) st2) in *.
+    rewrite (eff_single st3 t false i0) by auto.
+    pose proof (frame_eq_close_stack (fuel_of st3) st3 t false i0 p) as F.
+    pose proof (close_stack_routes (fuel_of st3) st3 t false i0 p G S) as R.
+    assert (H3 : hs_inst i0 st3) by (intros h0 i1 s0 X; simpl in X; apply hdel_in in X; destruct X; eapply Hh; eauto).
+    pose proof (close_stack_hs (fuel_of st3) st3 t false i0 p G S H3) as HS.
+    destruct (close_stack (fuel_of st3) st3 t false i0 p) as [st4 o4]. simpl in *. rewrite Nat.eqb_refl, R. split; auto.
+    destruct F as (_ & F2 & F3 & _ & _ & _ & F8 & _). split; [|split; [|split]].
+    + rewrite F2. exact G.
+    + rewrite F3. exact S.
+    + exact HS.
+    + intros i1 s0 q0. rewrite F8. apply Hc.
+  - (* enabled *)
+    unfold do_enabled. split; auto; repeat split; auto.
+  - (* fevent *)
+    unfold do_fevent. destruct (eff st t false); split; auto.
 Qed.
 
 Lemma run_single : forall h i0 st, single i0 st -> forallb no_setdef h = true -> own_default (trace st h) = true.
